@@ -271,7 +271,9 @@ class EditRun:
                 region = src_lines0[max(0, lo - 1):top.end_lineno + 1]
             else:
                 region = src_lines0
-            if any(l.rstrip().endswith('\\') for l in region):
+            cont = _continuation_lines(self.root.src)
+            first_ln = max(0, lo - 1) if len(chain) > 1 and hasattr(chain[1], 'lineno') else 0
+            if any((first_ln + i) in cont for i in range(len(region))):
                 flags.add('stmt_has_line_continuation')
             code0 = op.get('code') or {}
             if code0.get('form') not in (None, 'none') and code0.get('text') is not None:
@@ -380,6 +382,30 @@ class EditRun:
 
 class StopRun(Exception):
     pass
+
+
+def _continuation_lines(src):
+    """0-based indices of the lines that end in an explicit line continuation (a backslash that is not inside a string
+    or a comment).  Falls back to 'line ends with a backslash' when the source does not tokenize."""
+    import io
+    import tokenize
+    lines = src.split('\n')
+    cand = [i for i, l in enumerate(lines) if l.rstrip(' \t').endswith('\\')]
+    if not cand:
+        return set()
+    try:
+        toks = list(tokenize.generate_tokens(io.StringIO(src).readline))
+    except (tokenize.TokenError, SyntaxError, IndentationError):
+        return set(cand)
+    covered = set()
+    for t in toks:
+        if t.type in (tokenize.STRING, tokenize.COMMENT) or t.type in (getattr(tokenize, 'FSTRING_START', -1), getattr(tokenize, 'FSTRING_MIDDLE', -1), getattr(tokenize, 'FSTRING_END', -1)):
+            (sl, sc), (el, ec) = t.start, t.end
+            for i in cand:
+                col = len(lines[i].rstrip(' \t')) - 1
+                if (sl - 1, sc) <= (i, col) < (el - 1, ec):
+                    covered.add(i)
+    return set(cand) - covered
 
 
 class Plugin:
